@@ -160,20 +160,21 @@ EXPLANATION = {
 _PLUMB = (" Also, on the modules of this property: SUB-3 every subscription an operator makes passes a handler for on_next, on_error and "
           "on_completed (or the whole observer) and subscribes its source at most once on a path; GEN-3 every function that builds an "
           "operator's observable returns a value on every path; CFG-1 a factory parameter the handlers test is not recomputed in the factory from "
-          "anything but itself (otherwise the run ends as ANALYSIS-ERROR: the per-configuration reading of the handlers would not describe them).")
+          "anything but itself (otherwise the run ends as ANALYSIS-ERROR: the per-configuration reading of the handlers would not describe them), and a user function is never wrapped in a cache.")
+_EQ2 = " EQ-2 a marker object (STATE_NOTSET, STATE_CLEARED) is told apart by identity, never by == (which would run the __eq__ of the user value in the slot)."
 _ADDED = {
-    "C01": _PLUMB,
-    "C02": " TP-1 the state topology gives every declaration a new state id (create_mapper included); MX-6 one topology is probed by every subscriber of a merged source.",
-    "C03": " TP-1 (state ids are never shared between declarations); SUB-3 (see C01) on every module.",
+    "C01": " MS-6 the store layers forward state, key and value unchanged; TP-1 (state ids); FW-1 for group_by." + _EQ2 + _PLUMB,
+    "C02": _EQ2 + " MS-6 (forwarders); GEN-1 no generator-built handler; TP-1 the state topology gives every declaration a new state id (create_mapper included); MX-6 one topology is probed by every subscriber of a merged source.",
+    "C03": _EQ2 + " MS-6 (forwarders); TP-1 (state ids are never shared between declarations); SUB-3 (see C01) on every module.",
     "C04": " FWD-1 the public group_by hands key_mapper and pipeline unchanged to the implementation; TP-1 two group_by in one pipeline get two mapper states." + _PLUMB,
     "C05": " FWD-1 the public roll hands window and stride unchanged to the implementation." + _PLUMB,
     "C06": " FWD-1 the public split hands predicate and pipeline unchanged to the implementation; MX-6 one shared topology when several multiplexed sources are merged." + _PLUMB,
     "C07": " FWD-1 the public time_split hands both timeouts, the time mapper, closing_mapper and include_closing_item unchanged to the implementation (no clamping or defaulting)." + _PLUMB,
-    "C08": " TM-3 every application of tee_map publishes its own connectable from its source, also when the source is itself a connectable proxy." + _PLUMB,
-    "C09": _PLUMB,
-    "C10": _PLUMB,
+    "C08": " MX-5 also: the shared outer subject of a grouping head is completed / errored exactly when its source is, on every path; TM-3 every application of tee_map publishes its own connectable from its source, also when the source is itself a connectable proxy." + _PLUMB,
+    "C09": _EQ2 + _PLUMB,
+    "C10": _EQ2 + _PLUMB,
     "C11": " TM-1..4 for tee_map: the join completes with its last branch, not with the source." + _PLUMB,
-    "C12": " The per-key-state obligations of the memory store for the declared types int / float / bool / obj (MS-5: float states are C doubles).",
+    "C12": _EQ2 + " The per-key-state obligations of the memory store for the declared types int / float / bool / obj (MS-5: float states are C doubles).",
     "C13": " ER-4 starmap is map(lambda i: mapper(*i)): one call of the user function, no handler of its own." + _PLUMB,
     "C14": " TP-1 (state ids).",
     "C15": " FR-2 guard: the size test of frame rejects only lengths that do not fit in prefix_size bytes (folded for 1, 2, 4, 8)." + _PLUMB,
